@@ -25,7 +25,7 @@ RULE = (
 ASSUMPTIONS = [
     "parameter grid and answer-tree cap as listed under bounds (a capped setting is reported under caps_hit and what was enumerated below the cap is still checked)",
     "seed clause: finite seed list with the real RNG; generators are used one after the other (global seeding at construction is the documented mechanism)",
-    "unsatisfiable settings (fewer jobs than machines disallowed but min jobs < min machines) are excluded",
+    "settings that are unsatisfiable for every job count (fewer jobs than machines disallowed and max jobs < min machines) are excluded; for a drawn job count below the machine minimum only 'jobs >= machines', the machine maximum and the other clauses are demanded (the lower end of the machine range cannot hold together with them)",
 ]
 BOUNDS = {
     "quick": "jobs in {1,2,3,(1,2),(2,3)} x machines in {1,2,3,(1,2),(2,3)} x durations {(1,1),(0,1)} x allow_less x recirculation x machines_per_operation {1,(1,1),2,(1,2),(2,2)}, with explicit size arguments (both sizes for a third of the settings, only the job count or only the machine count for another third); settings whose tree exceeds 60000 leaves are capped; seeds {0,1,2,42} x 12 settings",
@@ -47,8 +47,14 @@ def settings(tier):
         j, m, k = norm(nj), norm(nm), norm(mpo)
         if k[1] > m[0]:
             continue  # more machines per operation than machines can exist
-        if not less and j[0] < m[0]:
-            continue  # unsatisfiable
+        if not less and j[1] < m[0]:
+            continue  # unsatisfiable for every job count
+        if not less and j[0] < m[0] and k[1] > j[0]:
+            continue  # clamped machine count could fall below machines_per_operation: not a setting the statement defines
+        # (partly satisfiable settings - some job counts below the machine
+        # minimum - are kept: the jobs >= machines clause is demanded there
+        # too, only the lower end of the machine range is waived, see
+        # shape_errors)
         # keep the answer tree small: wide duration ranges only on <= 6 ops
         max_ops = j[1] * m[1]
         if dr != (1, 1) and max_ops > 6:
@@ -113,7 +119,11 @@ def shape_errors(p, spec, explicit):
         return errs
     M = lens.pop()
     if explicit[1] is None:
-        if not m_rng[0] <= M <= m_rng[1]:
+        # With fewer jobs than machines disallowed and J below the machine
+        # minimum no M can satisfy both clauses; the statement's unconditional
+        # clause (jobs >= machines) is kept and the lower end is waived.
+        m_lo = m_rng[0] if (p["allow_less_jobs_than_machines"] or J >= m_rng[0]) else 1
+        if not m_lo <= M <= m_rng[1]:
             errs.append(f"operations per job {M} outside machine range {m_rng}")
     elif M != explicit[1]:
         errs.append(f"operations per job {M} != requested machines {explicit[1]}")
